@@ -469,3 +469,11 @@ Theorem lookup_source_shape :
 Proof. repeat split. Qed.
 Theorem init_source_shape : init_skips_generated = true /\ init_copies_factories = true.
 Proof. split; reflexivity. Qed.
+
+(* a lookup that was allowed to begin and had to wait is not refused when it is resumed -- in whatever state the
+   context is by then (there is no lifecycle re-check after the await) *)
+Lemma pending_lookup_never_refused tok x : snd (local_step (AGetEnd tok) x) <> Err RuntimeErr.
+Proof.
+  unfold local_step. replace (in_states (life x) (allowed (AGetEnd tok))) with true by (destruct (life x); reflexivity).
+  simpl. crush_step; discriminate.
+Qed.
